@@ -1112,7 +1112,8 @@ def check_C19(ctx):
                 r = ctx.summ(im["items"]["from"], [("v", agg(("array",), sa))]).ret
                 got = arr_of(r)
                 rep.ob("C19.from-array", short(path), got is not None and all(g is e for g, e in zip(got, sa)) and len(got) == n, "From<[u32; %d]> gives %s" % (n, describe_slots(got)), pdb.where(im["items"]["from"]))
-        ctx.guard("C19.whole." + short(path), whole)
+        with ctx.total("C19.no-panic"):
+            ctx.guard("C19.whole." + short(path), whole)
 
         # frame inventory: every fn taking &mut Self in this container's impls is a setter or sort_in_place
         def inventory():
@@ -1167,7 +1168,8 @@ def check_C19(ctx):
         r = arr_of(ctx.summ(key, [("v", two), ("v", five)]).ret)
         exp = slot_atoms(2, "t") + slot_atoms(5, "f")
         rep.ob("C19.ctor", "Seven::new", r is not None and len(r) == 7 and all(g is e for g, e in zip(r, exp)), "Seven::new(two, five) gives %s" % describe_slots(r), pdb.where(key))
-    ctx.guard("C19.ctor", ctors)
+    with ctx.total("C19.no-panic"):
+        ctx.guard("C19.ctor", ctors)
 
     # slot selection for every in-range index tuple
     for path, n in ((SIX, 6), (SEVEN, 7)):
@@ -1219,8 +1221,17 @@ def check_selection(ctx, rule, path, n):
     import random
     from .base import panic_free
     rnd = random.Random(5)
+    # every in-range index tuple (n^5), on two assignments of the slots; a site that reads the slot words is also
+    # folded on the other word assignments with a spread of tuples
+    from itertools import product as _prod
+    wes = word_envs(n, False)
     envs = []
-    for sl in word_envs(n, False)[:6]:
+    for tup in _prod(range(n), repeat=5):
+        for sl in wes[:2]:
+            e = dict(sl)
+            e.update({"p%d" % i: tup[i] for i in range(5)})
+            envs.append(e)
+    for sl in wes[2:8]:
         for v in range(n):
             e = dict(sl)
             e.update({"p%d" % i: v for i in range(5)})
